@@ -42,11 +42,13 @@ Definition okst (p : ipc) (v : status) : bool :=
   match p with
   | IDeps _ | IBlocked _ _ _ _ | ISkipDecided | IPreStart => status_eqb v SPending
   | IPreLaunch => status_eqb v SPending || status_eqb v SRestarting
-  | IStateSet | IAlive | IExited _ | ICodeWritten _ | IWillRestart _ => status_eqb v SRunning
+  | IStateSet => status_eqb v SRunning
+  | IAlive | IExited _ | ICodeWritten _ | IWillRestart _ => status_eqb v SRunning || status_eqb v STerminating
   | IRestarting _ | IBackoff _ => status_eqb v SRestarting
   | IEnding SSkipped _ | IInEnd SSkipped _ false => status_eqb v SPending
   | IEnding SError _ | IInEnd SError _ false => status_eqb v SPending || status_eqb v SRunning
-  | IEnding SCompleted _ | IInEnd SCompleted _ false => status_eqb v SRunning || status_eqb v SRestarting
+  | IEnding SCompleted _ | IInEnd SCompleted _ false =>
+      status_eqb v SRunning || status_eqb v SRestarting || status_eqb v STerminating
   | IEnding _ _ | IInEnd _ _ false => false
   | _ => true
   end.
@@ -144,7 +146,11 @@ Record R2 (s : sys) (o : obs) : Prop := mkR2 {
 (* the assumptions about the history under which (a1) and (b) are proved *)
 Definition asm (o : obs) (te : tid * event) : bool :=
   match snd te with
-  | EState _ STerminating => false
+  | EState i STerminating =>
+      (* Terminating is written over a running status, while the command is alive, by the stop-running path *)
+      let x := oi_get o i in
+      is_running_status (r_status (on_get o (o_nm x))) && o_alive x
+      && negb (opt_eqb status_eqb (o_endst x) (Some STerminating))
   | ENewInst i n => api_thread o (fst te) ||
                     (forallb (fun y => negb (N.eqb (o_nm y) n)) (vals (oi o)) && negb (deferred (conf_of cs n)))
   | EBegin i => status_eqb (r_status (on_get o (o_nm (oi_get o i)))) SPending
@@ -333,7 +339,8 @@ Proof.
 Qed.
 
 Lemma R2_state s o th i s0 s' :
-  R2 s o -> R1 cs s' (obs_step cs o (th, EState i s0)) -> step_state s th i s0 = Some s' -> s0 <> STerminating ->
+  R2 s o -> R1 cs s' (obs_step cs o (th, EState i s0)) -> step_state s th i s0 = Some s' ->
+  (s0 = STerminating -> o_alive (oi_get o i) = true /\ opt_eqb status_eqb (o_endst (oi_get o i)) (Some STerminating) = false) ->
   R2 s' (obs_step cs o (th, EState i s0)).
 Proof.
   intros HR H1 Hk Hnt.
@@ -351,12 +358,23 @@ Proof.
             ((pc x' = pc x /\ pre0_pc (pc x) = true /\ begun s i = false /\ s0 = SPending) \/
              (begun s i = true /\ ((pc x = IPreLaunch /\ s0 = SRunning /\ pc x' = IStateSet) \/
                                    (exists c, pc x = IWillRestart c /\ s0 = SRestarting /\ pc x' = IRestarting c) \/
-                                   (exists c, pc x = IInEnd s0 c false /\ pc x' = IInEnd s0 c true))))).
-  { destruct Htr as [c E1 E2 E3|E1 E2 E3|todo E1 E2 E3 E4|E1 E2 E3 E4|c E1 E2 E3 E4|c E1 E2 E3]; try congruence.
+                                   (exists c, pc x = IInEnd s0 c false /\ pc x' = IInEnd s0 c true))) \/
+             (pc x' = pc x /\ pc x = IAlive /\ s0 = STerminating /\
+              forall xo, get i (oi o) = Some xo -> opt_eqb status_eqb (o_endst xo) (Some STerminating) = false))).
+  { assert (Hstop : s0 = STerminating -> pc x' = pc x -> done_pc (pc x) = false /\
+              (pc x' = pc x /\ pc x = IAlive /\ s0 = STerminating /\
+               forall xo, get i (oi o) = Some xo -> opt_eqb status_eqb (o_endst xo) (Some STerminating) = false)).
+    { intros Hs Hp. destruct (Hnt Hs) as [Hal He].
+      destruct (R1_oi cs _ _ _ _ (r2_r1 _ _ HR) Hx) as (xo & Hxo & Hget & [IA IB IC ID] & _).
+      rewrite Hget in Hal, He. rewrite IA in Hal. specialize (IB Hal).
+      split; [now rewrite IB|]. repeat split; auto. intros xo2 Hxo2. congruence. }
+    destruct Htr as [c E1 E2 E3|E1 E2 E3|todo E1 E2 E3 E4|E1 E2 E3 E4|c E1 E2 E3 E4|c E1 E2 E3].
+    - destruct (Hstop E2 E3) as [? ?]. split; auto.
+    - destruct (Hstop E2 E3) as [? ?]. split; auto.
     - split; [now rewrite E2|]. left. rewrite E2. repeat split; auto. congruence.
-    - split; [now rewrite E2|]. right. split; [eapply begun_own; eauto|]. auto.
-    - split; [now rewrite E2|]. right. split; [eapply begun_own; eauto|]. right. left. eauto.
-    - split; [now rewrite E2|]. right. split; [eapply begun_own; eauto|]. right. right. eauto. }
+    - split; [now rewrite E2|]. right; left. split; [eapply begun_own; eauto|]. auto.
+    - split; [now rewrite E2|]. right; left. split; [eapply begun_own; eauto|]. right. left. eauto.
+    - split; [now rewrite E2|]. right; left. split; [eapply begun_own; eauto|]. right. right. eauto. }
   destruct Hcase as [Hdx Hcase].
   destruct HR as [_ A U N B].
   constructor; auto.
@@ -364,25 +382,32 @@ Proof.
     intros j y yo' Hy Hyo. destruct (Hobs j yo' Hyo) as (yo & Eyo & E2 & E3 & E1).
     destruct (N.eqb_spec i j) as [<-|Hne].
     + assert (y = x') by congruence. subst y. destruct (A _ _ _ Hx Eyo) as [PA PB PC PD PE PF]. cbn [andb] in E1.
-      assert (Hend : opt_eqb status_eqb (o_endst yo) (Some s0) = true -> endst_pc s0 (pc x) = true).
-      { destruct (o_endst yo) as [s1|] eqn:Es1; cbn; [|discriminate]. intros Hs. apply status_eqb_eq in Hs. subst s1.
+      assert (Hend : s0 <> STerminating -> opt_eqb status_eqb (o_endst yo) (Some s0) = true -> endst_pc s0 (pc x) = true).
+      { intros Hnt0. destruct (o_endst yo) as [s1|] eqn:Es1; cbn; [|discriminate]. intros Hs. apply status_eqb_eq in Hs. subst s1.
         destruct (PB s0 eq_refl); [contradiction|assumption]. }
-      destruct Hcase as [(Hp & Hp0 & Hb & ->)|(Hb & [(Hp & -> & Hp')|[(c & Hp & -> & Hp')|(c & Hp & Hp')]])].
+      destruct Hcase as [(Hp & Hp0 & Hb & ->)|[(Hb & [(Hp & -> & Hp')|[(c & Hp & -> & Hp')|(c & Hp & Hp')]])|(Hp & Hp0 & -> & Hne)]].
       * constructor; rewrite ?Hp, ?Hl, ?Hbeg, ?Hnm, ?Hst, ?N.eqb_refl, ?E2, ?E3; auto; try (intros; congruence).
         rewrite E1. destruct (opt_eqb status_eqb (o_endst yo) (Some SPending)) eqn:Eo; [|exact PA].
-        specialize (Hend eq_refl). destruct (pc x); cbn in Hp0, Hend; discriminate.
+        specialize (Hend ltac:(discriminate) eq_refl). destruct (pc x); cbn in Hp0, Hend; discriminate.
       * constructor; rewrite ?Hp', ?Hl, ?Hbeg, ?Hnm, ?Hst, ?N.eqb_refl, ?E2, ?E3; cbn; auto; try discriminate; try congruence.
         -- rewrite E1. destruct (opt_eqb status_eqb (o_endst yo) (Some SRunning)) eqn:Eo.
-           ++ specialize (Hend eq_refl). rewrite Hp in Hend. discriminate.
+           ++ specialize (Hend ltac:(discriminate) eq_refl). rewrite Hp in Hend. discriminate.
            ++ intros He. specialize (PA He). rewrite Hp in PA. discriminate.
         -- intros s1 Hs1. destruct (PB s1 Hs1) as [?|Hq]; [now left|]. rewrite Hp in Hq. discriminate.
       * constructor; rewrite ?Hp', ?Hl, ?Hbeg, ?Hnm, ?Hst, ?N.eqb_refl, ?E2, ?E3; cbn; auto; try discriminate; try congruence.
         -- rewrite E1. destruct (opt_eqb status_eqb (o_endst yo) (Some SRestarting)) eqn:Eo.
-           ++ specialize (Hend eq_refl). rewrite Hp in Hend. discriminate.
+           ++ specialize (Hend ltac:(discriminate) eq_refl). rewrite Hp in Hend. discriminate.
            ++ intros He. specialize (PA He). rewrite Hp in PA. discriminate.
         -- intros s1 Hs1. destruct (PB s1 Hs1) as [?|Hq]; [now left|]. rewrite Hp in Hq. discriminate.
       * constructor; rewrite ?Hp', ?Hl, ?Hbeg, ?Hnm, ?Hst, ?N.eqb_refl, ?E2, ?E3; cbn; auto; try discriminate; try congruence.
         intros s1 Hs1. destruct (PB s1 Hs1) as [?|Hq]; [now left|]. rewrite Hp in Hq. now right.
+      * (* a stop execution writes Terminating over the live command *)
+        rewrite (Hne yo Eyo) in E1.
+        constructor; rewrite ?Hp, ?Hp0, ?Hl, ?Hbeg, ?Hnm, ?Hst, ?N.eqb_refl, ?E1, ?E2, ?E3; cbn; auto; try discriminate.
+        -- intros He. specialize (PA He). rewrite Hp0 in PA. discriminate.
+        -- intros s1 Hs1. destruct (PB s1 Hs1) as [?|Hq]; [now left|]. rewrite Hp0 in Hq. discriminate.
+        -- intros Hb. specialize (PD Hb). rewrite Hp0 in PD. discriminate.
+        -- intros _ Hb. specialize (PD Hb). rewrite Hp0 in PD. discriminate.
     + rewrite (Hfr j) in Hy by congruence. destruct (A _ _ _ Hy Eyo) as [PA PB PC PD PE PF].
       assert (Eend : o_ended yo' = o_ended yo).
       { rewrite E1. destruct (N.eqb_spec i j); [congruence|reflexivity]. }
@@ -507,8 +532,13 @@ Qed.
 Lemma R2_flush s o th : R2 s o -> R2 (flush th s) o.
 Proof. intros HR. eapply R2_frame; eauto using msame_flush, osame_refl. apply R1_flush. apply (r2_r1 _ _ HR). Qed.
 
-Lemma asm_state o th i s0 : asm o (th, EState i s0) = true -> s0 <> STerminating.
-Proof. intros H ->. discriminate. Qed.
+Lemma asm_state o th i s0 : asm o (th, EState i s0) = true -> s0 = STerminating ->
+  is_running_status (r_status (on_get o (o_nm (oi_get o i)))) = true /\ o_alive (oi_get o i) = true /\
+  opt_eqb status_eqb (o_endst (oi_get o i)) (Some STerminating) = false.
+Proof.
+  intros H ->. cbn in H. apply andb_true_iff in H. destruct H as [H H3]. apply andb_true_iff in H. destruct H as [H1 H2].
+  apply negb_true_iff in H3. auto.
+Qed.
 
 Lemma R2_step s o th e s' : R2 s o -> step s (th, e) = Some s' -> asm o (th, e) = true ->
   w_dup (obs_step cs o (th, e)) = false -> R2 s' (obs_step cs o (th, e)).
@@ -525,7 +555,7 @@ Proof.
     + eapply R2_frame; [eassumption|eassumption|eapply step_reg_msame; eauto|apply obs_step_osame; eapply reg_oexc; eauto].
   - eapply R2_frame; [eassumption|eassumption|eapply step_api_msame; eauto|apply obs_step_osame; eapply api_oexc; eauto].
   - eapply R2_frame; [eassumption|eassumption|eapply step_stop_msame; eauto|apply obs_step_osame; eapply stop_oexc; eauto].
-  - eapply R2_state; eauto using asm_state.
+  - eapply R2_state; eauto. intros Hs. destruct (asm_state _ _ _ _ Hasm Hs) as (_ & ? & ?). auto.
   - eapply R2_procend; eauto.
   - eapply R2_frame; [eassumption|eassumption|eapply step_shutdown_msame; eauto|apply obs_step_osame; eapply shutdown_oexc; eauto].
   - eapply R2_frame; [eassumption|eassumption|eapply step_ordered_msame; eauto|apply obs_step_osame; reflexivity].
@@ -546,9 +576,12 @@ Proof.
   destruct (r2_r1 _ _ HR) as [HRc _].
   destruct (rc_inst _ _ _ HRc i x Hx) as (xo & Hxo & Hn & Hc & Hla).
   destruct (r2_inst _ _ HR _ _ _ Hx Hxo) as [PA PB PC PD PE PF].
+  assert (Hterm : s0 = STerminating -> is_running_status (st (vis_of sf (nm x))) = true).
+  { intros Hs. destruct (asm_state _ _ _ _ Hasm Hs) as (Hr & _). now rewrite Hprev in Hr. }
   unfold mon_legal. cbn [snd]. rewrite Hprev. unfold oi_get. rewrite Hxo.
-  apply asm_state in Hasm.
-  destruct Htr as [c E1 E2 E3|E1 E2 E3|todo E1 E2 E3 E4|E1 E2 E3 E4|c E1 E2 E3 E4|c E1 E2 E3]; try congruence.
+  destruct Htr as [c E1 E2 E3|E1 E2 E3|todo E1 E2 E3 E4|E1 E2 E3 E4|c E1 E2 E3 E4|c E1 E2 E3].
+  - specialize (Hterm E2). subst s0. destruct (st (vis_of sf (nm x))); try discriminate; reflexivity.
+  - specialize (Hterm E2). subst s0. destruct (st (vis_of sf (nm x))); try discriminate; reflexivity.
   - (* initial Pending *) subst s0. change (begun sf i = false) in E4.
     destruct (o_byapi xo) eqn:Eb.
     + rewrite Hla, PC by (now rewrite E2). cbn. now rewrite orb_true_r.
@@ -595,3 +628,45 @@ Proof.
   - apply w_dup_mono.
 Qed.
 End RelC09b.
+
+(* ---- the whole monitor ------------------------------------------------------------------------------------ *)
+Definition C09_assumptions (cs : amap pconf) (evs : list (tid * event)) : bool := holds' cs (asm cs) evs.
+
+Theorem C09_main_partial_lemma cs ord evs s :
+  accept (init cs ord) evs = Some s -> C09_assumptions cs evs = true -> w_dup (final_obs cs evs) = false ->
+  holds_C09 cs evs = true.
+Proof.
+  intros Hacc HA HW. rewrite holds_C09_split.
+  destruct (C09_legal_launch_holds cs ord evs s Hacc HA HW) as [H1 H2].
+  rewrite H1, H2, (C09_term_holds cs ord evs s Hacc), (C09_code_holds cs ord evs s Hacc). reflexivity.
+Qed.
+
+(* declarative readings: the check holds at every position of the history, on the facts accumulated before it *)
+Definition obs_before (cs : amap pconf) (evs : list (tid * event)) (p : nat) : obs :=
+  fold_left (obs_step cs) (firstn p evs) (obs0 cs).
+
+Lemma holds'_nth cs m evs : holds' cs m evs = true ->
+  forall p e, nth_error evs p = Some e -> m (obs_before cs evs p) e = true.
+Proof.
+  unfold holds'. destruct (mon_run cs m (obs0 cs) evs 0) eqn:E; [discriminate|]. intros _ p e Hp.
+  eapply mon_run_None_nth; eauto.
+Qed.
+
+Theorem C09_code_declarative cs ord evs s : accept (init cs ord) evs = Some s ->
+  forall p th c i, nth_error evs p = Some (th, EExitCode c) ->
+    get th (o_th (obs_before cs evs p)) = Some i ->
+    o_code (oi_get (obs_before cs evs p) i) = Some c.
+Proof.
+  intros Hacc p th c i Hp Hth. pose proof (holds'_nth _ _ _ (C09_code_holds cs ord evs s Hacc) p _ Hp) as H.
+  unfold mon_code in H. cbn [fst snd ev_inst] in H. rewrite Hth in H.
+  destruct (o_code (oi_get (obs_before cs evs p) i)) as [c0|]; cbn in H; [|discriminate].
+  apply Z.eqb_eq in H. now subst.
+Qed.
+
+Theorem C09_term_declarative cs ord evs s : accept (init cs ord) evs = Some s ->
+  forall p th i s0, nth_error evs p = Some (th, EState i s0) -> terminal s0 = true ->
+    o_alive (oi_get (obs_before cs evs p) i) = false.
+Proof.
+  intros Hacc p th i s0 Hp Ht. pose proof (holds'_nth _ _ _ (C09_term_holds cs ord evs s Hacc) p _ Hp) as H.
+  unfold mon_term in H. cbn [snd] in H. rewrite Ht in H. cbn in H. now apply negb_true_iff in H.
+Qed.
